@@ -4,10 +4,13 @@ import PsV.Model.Monotone
 Driver for C10 (monotonic fits).  Same protocol as the evaluation driver (`T`, `V`, … lines are handed to
 `PsV.Driver.Eval.step`, which answers a `V d mask …` line with `bits exact-model exact-spec magnitude`), plus
 
-  `M m`  →  `mono=<0/1> s1=<stride1> n=<naxes_m> s2=<stride2>`
+  `M m`  →  `mono=<0/1> s1=<stride1> n=<naxes_m> s2=<stride2> inc=<0/1>`
 
-decided by `PsV.monoAlongB` — the hypothesis of `C10_monotone_B` — on the exact rational values of the float
-coefficients of the current table.
+`mono` is decided by `PsV.monoAlongB` — the hypothesis of `C10_monotone_B` / `C10_surface_monotone_B` — and `inc` by
+`PsV.incNonnegB` (every T-spline coordinate `diffAlong` of the table is `≥ 0`: the table is the cumulative sum of a
+non-negative vector, `increments_nonneg_iff`) on the exact rational values of the float coefficients of the current table.
+A `V d 0 …` line (handled by the evaluation driver) returns the exact value of the spline, which `C10_surface_monotone_B`
+says is non-decreasing along `m`.
 -/
 namespace PsV.Driver.C10
 open PsV PsV.Driver PsV.Driver.Eval
@@ -21,7 +24,8 @@ def monoLine (t : RawTable) (m : Nat) : String :=
     let s1 := stride1 naxes m
     let s2 := stride2 naxes m
     let ok := monoAlongB (fun (a b : Rat) => decide (a ≤ b)) s1 n s2 (fun p => T.coef (p : Int))
-    s!"mono={if ok then 1 else 0} s1={s1} n={n} s2={s2}"
+    let inc := incNonnegB (fun (a : Rat) => decide (0 ≤ a)) (· - ·) s1 n s2 (fun p => T.coef (p : Int))
+    s!"mono={if ok then 1 else 0} s1={s1} n={n} s2={s2} inc={if inc then 1 else 0}"
 
 partial def loop (h out : IO.FS.Stream) (st : Eval.DState) : IO Unit := do
   let line ← h.getLine
